@@ -7,6 +7,7 @@ import "k8s.io/utils/clock"
 // VerifHook, when set by a verification harness, is called at the named
 // points. It is only compiled with the "verif" build tag.
 //   - "addcloser.afterCheck": AddCloser passed its closing check and is about to take the lock
+//   - "runner.run.afterCAS" / "closer.run.afterCAS": Run of the RunnerManager / RunnerCloserManager won its running CAS
 var VerifHook func(point string)
 
 func verifPoint(point string) {
